@@ -329,6 +329,94 @@ def _grid_init(ctx, R, m, init):
             ctx.ob(R, init.qname, f"{what}: the constructor leaves the tables of _setup (and what it computed before) as they are", not changed,
                    "; ".join(f"self.{tname} is re-stored as {nf(F.get(tname))[:90]}" for tname in changed[:3]) + " -- a conversion after set-up (narrower dtype, copy with other values) changes the 'no face' marker -1 and large indices", init.node, evidence=True)
 
+def _generate_grid(ctx, R, m, g, init):
+    """generate_grid folded on a symbolic image of 1-3 dimensions (num_voxels and voxel_size per matrix axis, the coordinate system's
+    per-Cartesian-axis dictionary consistent with the axis table), the Grid constructor folded on the arguments it is handed: the grid
+    must get the image's voxel counts as its shape and, per matrix axis, the image's voxel size."""
+    from ..fold import Arr, Folder, Obj, Opaque, Raised, Refuse
+    from ..terms import nf
+    from . import c20
+
+    T_i, _, _ = c20.extract_tables(ctx)
+    setup = m.func(MOD, "Grid._setup")
+    for d in (1, 2, 3):
+        ctx.instance(R)
+        N = [Opaque("int", f"N{k}") for k in range(d)]
+        h = [Opaque("float", f"h{k}") for k in range(d)]
+        cs_vs = {}
+        for a in "xyz"[:d]:
+            row = T_i[(a, "ijk"[:d])]
+            if row[0] == "ret":
+                cs_vs[a] = h[row[1][0]]
+        image = Obj("image", {"__class__": "Image", "num_voxels": N, "voxel_size": h, "space_dim": d, "indexing": "ijk"[:d], "shape": tuple(N),
+                              "img": Opaque("ndarray", "IMG", {"shape": tuple(N)}),
+                              "coordinatesystem": Obj("cs", {"voxel_size": cs_vs, "axes": "xyz"[:d], "dim": d, "indexing": "ijk"[:d], "shape": tuple(N)})})
+        got = {}
+
+        def grid(a, k, got=got):
+            params = init.params[1:]
+            bound = dict(zip(params, a))
+            bound.update(k)
+            got.update(bound)
+            return Obj("grid", {"__class__": "Grid"})
+        title = f"dim {d}: generate_grid hands the image's voxel counts and, per matrix axis, its voxel sizes to the grid"
+        from ..fold import fold_paths
+
+        def run(decide, got=got, grid=grid, image=image):
+            got.clear()
+            fo = Folder(symbolic=True)
+            fo.decider = decide
+            fo.func_stack.append(g.node)
+            fo.overrides = {"Grid": grid, "darsia.Grid": grid}
+            fo.call(g.node, [image])
+            return dict(got)
+        try:
+            paths = fold_paths(run, max_paths=16)
+        except Refuse as e:
+            ctx.ob(R, g.qname, title, False, f"fold of generate_grid not found to be possible: {e}", g.node)
+            continue
+        errs = [e for _, r, e in paths if e is not None and not isinstance(e, Raised)]
+        outs = [(log, r) for log, r, e in paths if e is None and r]
+        if errs or not outs:
+            ctx.ob(R, g.qname, title, False, f"fold of generate_grid not found to be possible: {errs[0] if errs else 'call of Grid(...) not found in the fold'}", g.node)
+            continue
+        # a path on which the grid does not get one axis per image axis is a finding by itself
+        short = [(log, r) for log, r in outs if isinstance(r.get(init.params[1]), (list, tuple)) and len(r.get(init.params[1])) != d]
+        if short:
+            log, r = short[0]
+            ctx.ob(R, g.qname, title, False, f"on the path {' and '.join(('' if b else 'not ') + nf(c)[:40] for c, b in log)} the grid shape is {nf(r.get(init.params[1]))[:60]}: "
+                   f"{len(r.get(init.params[1]))} axes for a {d}-dimensional image -- face counts, connectivity and corner tables no longer follow the image's voxel shape", g.node, evidence=True)
+            continue
+        got = outs[0][1]
+        shape_arg = got.get(init.params[1])
+        vs_arg = got.get(init.params[2]) if len(init.params) > 2 else None
+        sh = list(shape_arg) if isinstance(shape_arg, (list, tuple)) else (shape_arg.flat() if isinstance(shape_arg, Arr) else None)
+        if sh is None or len(sh) != d or not all(x is y for x, y in zip(sh, N)):
+            ok_shape = False
+        else:
+            ok_shape = True
+        # the constructor's own view of the voxel sizes it was given
+        so = Obj("self", {"__class__": "Grid", "_setup": lambda a, k: None})
+        f2 = Folder(symbolic=True)
+        f2.func_stack.append(init.node)
+        f2.fold_all_methods = True
+        try:
+            f2.call(init.node, [so, shape_arg if shape_arg is not None else N] + ([vs_arg] if vs_arg is not None else []))
+            vs = so.fields.get("voxel_size")
+            vl = vs.flat() if isinstance(vs, Arr) else (list(vs) if isinstance(vs, (list, tuple)) else None)
+        except (Refuse, Raised) as e:
+            ctx.ob(R, g.qname, title, False, f"fold of Grid.__init__ on the arguments of generate_grid not found to be possible: {e}", g.node)
+            continue
+        if vl is None or len(vl) != d:
+            ctx.ob(R, g.qname, title, False, f"voxel sizes of the grid not found per axis: {nf(vs)[:100]}", g.node)
+            continue
+        wrong = [k for k in range(d) if vl[k] is not h[k]]
+        known = all(any(x is y for y in h) for x in vl)
+        ctx.ob(R, g.qname, title, ok_shape and not wrong,
+               (f"grid shape is {nf(shape_arg)[:60]}; " if not ok_shape else "") + f"grid voxel sizes per matrix axis are {[nf(x) for x in vl]}, the image has {[nf(x) for x in h]}"
+               + (" -- axes are permuted: lengths, face areas and costs along those axes are wrong" if known and wrong else ""), g.node, evidence=(known and ok_shape) or (not ok_shape and sh is not None))
+
+
 
 def rule_d(ctx):
     R = "C07.d"
@@ -337,22 +425,8 @@ def rule_d(ctx):
     m = ctx.model
     g = m.func(MOD, "generate_grid")
     ctx.instance(R)
-    env = {norm(s.targets[0]): norm(s.value) for s in ast.walk(g.node) if isinstance(s, ast.Assign)}
-    rets = [r.value for r in ast.walk(g.node) if isinstance(r, ast.Return)]
-    p = g.params[0]
-    init_params = m.func(MOD, "Grid.__init__").params[1:]
-    ok = len(rets) == 1 and isinstance(rets[0], ast.Call) and norm(rets[0].func) == "Grid" and not any(k.arg is None for k in rets[0].keywords)
-    a0 = a1 = ""
-    if ok:
-        # arguments bound to the constructor's parameters by position or by name
-        bound = dict(zip(init_params, rets[0].args))
-        bound.update({k.arg: k.value for k in rets[0].keywords})
-        ok = set(bound) == set(init_params[:2]) and len(rets[0].args) + len(rets[0].keywords) == 2
-        if ok:
-            a0 = env.get(norm(bound[init_params[0]]), norm(bound[init_params[0]]))
-            a1 = env.get(norm(bound[init_params[1]]), norm(bound[init_params[1]]))
-    ctx.ob(R, g.qname, "Grid(image.num_voxels, image.voxel_size)", ok and a0 == f"{p}.num_voxels" and a1 == f"{p}.voxel_size", f"Grid({a0}, {a1})", g.node)
     init = m.func(MOD, "Grid.__init__")
+    _generate_grid(ctx, R, m, g, init)
     _grid_init(ctx, R, m, init)
     ctx.floor(R, 1)
 
